@@ -85,6 +85,12 @@ class G:
         self.keys.append(h2 + bytes(b ^ 0x80 for b in h2))
         self.keys.append(h2 + bytes(b ^ 0x01 for b in h2))
         self.keys.append(h2 + bytes(b ^ (0x80 if i % 3 == 0 else 0) for i, b in enumerate(h2)))
+        # halves that differ by a byte-aligned complement mask (the derivations xor counters and their complements into
+        # the halves: such keys are where a derived key degenerates to equal halves); one with parity-bit noise on top
+        h3 = rng.randbytes(8)
+        for m in ("000000000000FFFF", "FFFF000000000000", "FFFFFFFFFFFFFFFF", "00000000000000FF"):
+            self.keys.append(h3 + bytes(a ^ b for a, b in zip(h3, bytes.fromhex(m))))
+        self.keys.append(h3 + bytes(a ^ b ^ (rng.randrange(2)) for a, b in zip(h3, bytes.fromhex("000000000000FFFF"))))
         self.msgs = [self.fresh_msg() for _ in range(6)]
         # parity variants of pooled keys (what a cache keyed on a parity-normalised key confuses)
         self.variants = []
